@@ -306,6 +306,40 @@ pub fn run_c10_timed(out: &mut Out, tier: &str, rng: &mut Rng) {
     }
 }
 
+/// Reception after a LONG silence (thorough tier only: it really waits): a unit that has been quiet for more than a minute
+/// speaks again; the frame is received like any other and the network keeps ticking and taking commands.
+pub fn run_c06_long_silence(out: &mut Out, tier: &str) {
+    if tier != "thorough" {
+        return;
+    }
+    let d = DriverCfg { da: 0x4A, sa: None, timeout: None, vendor: "laixer".into(), product: "hcu".into() };
+    let e = DriverCfg { da: 0x6A, sa: None, timeout: None, vendor: "kübler".into(), product: "encoder".into() };
+    let cfg = NetCfg { address: 0x27, name: default_name(), drivers: vec![d.clone(), e.clone()] };
+    let mut rig = match Rig::new(&cfg) {
+        Ok(r) => r,
+        Err(()) => return,
+    };
+    let mut h = Hist { rig: &mut rig, ins: vec![], outs: vec![] };
+    h.setup();
+    let f1 = raw_of(make_id(6, 65288, 0, 0x4A), &[0x14, 0xFF, 1, 0xFF, 1, 0, 0, 0]);
+    let f2 = raw_of(make_id(6, 65450, 0, 0x6A), &[0x10, 0x27, 0, 0, 0, 0, 0, 0]);
+    h.frame(&f1);
+    h.frame(&f2);
+    h.frame(&f1);
+    h.cycle();
+    h.wait(66_000);
+    h.frame(&f1);
+    h.frame(&f2);
+    h.cycle();
+    h.motion(&Motion::StopAll);
+    h.cycle();
+    h.frame(&f1);
+    h.cycle();
+    let (ins, outs) = (h.ins.join(" "), h.outs.join(" "));
+    out.case(&format!("auth {} {}", cfg.tok(), ins), &outs, true);
+    out.count("authority history with 66 s of real silence");
+}
+
 /// C01 at the authority level: the latest motion command governs what every hydraulic unit is sent, whatever the
 /// bus traffic and whether or not the unit is currently heard (timeouts absent / expired / far away).
 pub fn run_c01_auth(out: &mut Out, tier: &str, rng: &mut Rng) {
